@@ -3,7 +3,9 @@
 Model: Model/Codec.v (create_msg / create_cls, to_bitarray, encode_ascii_6, decode_into_bit_array, decode_bits) over the
 regenerated tables.  Correspondence: the extracted chain vs the implementation on the same field assignment through the
 three public paths (encode_dict with `type`, encode_dict with `msg_type`, MessageTypeN.create() + encode_msg), compared
-stage by stage: created attributes, payload bits, armored payload + fill, decoded message.
+stage by stage: created attributes, payload bits, armored payload + fill, decoded message; and, for the same cases,
+the FULL path in the model (encode_msg / encode_dict -> decode_api, the function C02_end_to_end is about) against
+pyais.decode(*pyais.encode_dict(d)) / pyais.decode(*pyais.encode_msg(m)): the sentences and the decoded message.
 Oracle: Spec/RoundTripSpec.v (extracted in_range / normalise / tolerance) on pyais.decode(*encode...(assignment))."""
 import os
 import sys
@@ -117,6 +119,7 @@ def run_cases(ctx, lay, cases, use_oracle=True):
         lines.append(f'c02model {target} {kw}')
         lines.append(f'rtspec {lay.cls} {txt}')
     replies = ctx.model.ask_many(lines) if ctx.model else None
+    e2e_replies = e2e_ask(ctx, lay, cases)
     for i, (kind, api, a) in enumerate(cases):
         rep.case((lay.cls, api, sorted((k, repr(v)) for k, v in a.items())), kind=kind)
         impl = rc.impl_roundtrip(lay, api, a)
@@ -140,6 +143,8 @@ def run_cases(ctx, lay, cases, use_oracle=True):
                 diff = rc.compare_c02(impl, model)
                 if diff:
                     rep.disagree('H-codec/encode', replay, mrep[:400], diff)
+                elif e2e_replies is not None:
+                    e2e_compare(rep, impl, e2e_replies[i], replay)
         # oracle
         if use_oracle and srep is not None:
             if srep[0] == '1':
@@ -151,6 +156,56 @@ def run_cases(ctx, lay, cases, use_oracle=True):
                 rep.sample({'class': lay.cls, 'api': api, 'assignment': {k: cc.show(v) for k, v in list(a.items())[:8]},
                             'sentences': impl.get('sentences', [])[:1],
                             'decoded': {k: cc.show(v) for k, v in impl['decoded'][2] if k in a}, 'violations': nv})
+
+
+# ---- the full path in the model (composition layer; Props/C02.v C02_end_to_end is about exactly this function) ----
+# encode_msg / encode_dict -> decode_api in the extracted model (driver command `e2e`, ocaml/cmd_e2e.ml) against
+# pyais.decode(*pyais.encode_dict(d)) / pyais.decode(*pyais.encode_msg(m)): the sentences and the decoded message.
+# Model-vs-code only (no oracle), and only for cases on which the payload-level correspondence above already agreed
+# and the model is defined (not Unmodelled, not near a quantisation tie): it cannot raise an alarm on correct code
+# that the stage-by-stage comparison would not raise as well, it only adds the framing + parsing + assembly stages.
+E2E_API = {'create+encode_msg': 'msg', 'encode_dict:msg_type': 'dict', 'encode_dict:type': 'dicttype'}
+E2E_TALKER, E2E_CHANNEL = 'AIVDO'.encode().hex(), 'A'.encode().hex()      # the defaults of encode_dict / encode_msg
+
+
+def e2e_ask(ctx, lay, cases):
+    if not ctx.model:
+        return None
+    lines = []
+    for _, api, a in cases:
+        target = lay.cls if api == 'create+encode_msg' else str(lay.tid)
+        lines.append(f'e2e {E2E_API[api]} {target} {E2E_TALKER} {E2E_CHANNEL} {rc.assignment_text(a)}')
+    replies = ctx.model.ask_many(lines)
+    if any(r.startswith('ERROR unknown command') for r in replies[:1]):
+        return None                                   # a driver built without ocaml/cmd_e2e.ml
+    return replies
+
+
+def e2e_compare(rep, impl, reply, replay):
+    if reply.startswith('ERROR'):
+        rep.internal(f'driver: {reply[:300]} (e2e)')
+        return
+    if 'error' in impl or 'sentences' not in impl or 'decoded' not in impl:
+        return                                        # outcome already compared by compare_c02
+    if reply.startswith('Raise '):
+        if reply[6:].strip() == 'Unmodelled':
+            rep.count('e2e:unmodelled-skipped')
+        else:
+            rep.disagree('H-e2e/encode-decode', replay, reply[:400], f"outcome: impl Ok model {reply[:80]}")
+        return
+    left, right = reply[3:].split(' | ', 1)
+    if right.strip() == 'Raise Unmodelled':
+        rep.count('e2e:unmodelled-skipped')
+        return
+    rep.count('e2e:full-path-compared')
+    msent = [] if left.strip() == '-' else [bytes.fromhex(h).decode('latin-1') for h in left.strip().split(',')]
+    if list(impl['sentences']) != msent:
+        rep.disagree('H-e2e/encode-decode', replay, reply[:400],
+                     f"sentences: impl {list(impl['sentences'])[:2]} model {msent[:2]}")
+        return
+    d = cc.compare_model(impl['decoded'], cc.parse_msg(right))
+    if d:
+        rep.disagree('H-e2e/encode-decode', replay, reply[:400], 'decoded through the full path: ' + d)
 
 
 def build_cases(ctx, lay, n_random, per_field, n_bad):
